@@ -111,6 +111,9 @@ def run(ids):
     for n in names:
         d = os.path.join(SEEDED, n)
         prop = n.split("-")[0]
+        if json.load(open(os.path.join(d, "meta.json"))).get("obsolete"):
+            print(n, "obsolete (no longer breaks the property on the current tree):", json.load(open(os.path.join(d, "meta.json")))["obsolete"][:200])
+            continue
         rc, out = sh(f"git -C {REPO} apply {d}/patch.diff")
         entry = {"property": prop}
         if rc != 0:
@@ -124,14 +127,14 @@ def run(ids):
                 rc, out = sh(f"{ROOT}/check {prop} --tier {tier}", timeout=7200)
                 lines = [l for l in out.splitlines() if l.startswith("VIOLATION") or "failing input" in l or "obligation" in l.lower()]
                 entry[tier] = {"exit": rc, "seconds": round(time.time() - t0, 1), "lines": lines[:8]}
-                if rc != 0:
-                    break
                 m_ = [l for l in out.splitlines() if l.startswith("VIOLATION") and "replay=" in l]
                 if m_:
                     # keep the failing input this change was caught with (corpus: `tools_seeded.py corpus`)
                     rp = m_[0].split("replay=")[1].split()[0]
                     if os.path.exists(rp):
                         shutil.copy(rp, os.path.join(d, "replay.json"))
+                if rc != 0:
+                    break
             entry["detected"] = any(entry.get(t, {}).get("exit") == 1 for t in ("quick", "thorough"))
             entry["detected_by"] = next((t for t in ("quick", "thorough") if entry.get(t, {}).get("exit") == 1), None)
         finally:
